@@ -2520,8 +2520,18 @@ fn run_corr(args: &Args) -> Report {
         }
         col.rep.evaluations += t.evaluations;
         col.rep.notes.push("profile: release; thorough tier: doubling-time experiment run after the corr streams (nothing is timed in the quick tier)".into());
+    } else if !DBG {
+        // quick tier, release build: the conservative one-step guard (see quick_ratio)
+        let mut t = Report::new();
+        run_quick_timing_into(&mut t);
+        for (req, what) in t.failures.iter() {
+            col.rep.case("timing", req, "linear", &format!("SUPERLINEAR:{}", clip(what, 200)), true, "timing:flagged-unlisted");
+        }
+        col.rep.notes.extend(t.notes);
+        col.rep.evaluations += t.evaluations;
+        col.rep.notes.push("profile: release; quick tier: conservative 8x-step timing guard after the corr streams".into());
     } else {
-        col.rep.notes.push(format!("profile: {}; nothing is timed in this run", if DBG { "dev (debug assertions, overflow checks)" } else { "release" }));
+        col.rep.notes.push("profile: dev (debug assertions, overflow checks); nothing is timed in this run".into());
     }
     col.rep
 }
@@ -3270,6 +3280,24 @@ fn timing_experiments() -> Vec<Exp> {
         v.push(exp_str("idna::domain_to_ascii", "", unit, "", None, toa));
         v.push(exp_str("idna::domain_to_unicode", "", unit, "", None, tou));
     }
+    // two-part families: many short labels and one long label (a cost of the form #labels x longest label is
+    // invisible to every single-unit repetition family)
+    for (fam, short, long, long_last) in [
+        ("'\u{e9}.'*n+'a'*4n", "\u{e9}.", "a", true),
+        ("'a'*4n+'.\u{e9}'*n", ".\u{e9}", "a", false),
+        ("'xn--4db.'*n+'a'*4n", "xn--4db.", "a", true),
+        ("'a.'*n+'\u{e9}'*n", "a.", "\u{e9}", true),
+    ] {
+        for (row, f) in [("idna::domain_to_ascii", toa), ("idna::domain_to_unicode", tou)] {
+            v.push(exp(row, fam, None, move |size| {
+                let n = (size / 8).max(1);
+                let many = short.repeat(n);
+                let one = long.repeat(4 * n / long.len().max(1));
+                let s = if long_last { format!("{}{}", many, one) } else { format!("{}{}", one, many) };
+                Box::new(move || f(&s))
+            }));
+        }
+    }
     v.push(exp_str("url::Host::parse", "", "a.", "", None, |s| bb(Host::parse(s))));
     v.push(exp_str("url::Host::parse", "", "1.", "", None, |s| bb(Host::parse(s))));
     v.push(exp_str("url::Host::parse", "", "0x", "", None, |s| bb(Host::parse(s))));
@@ -3333,6 +3361,69 @@ fn doubling(e: &Exp) -> (String, bool) {
         }
     );
     (line, flagged)
+}
+/// Quick-tier guard (release build only): one size step of 8x, flagged only if the cost ratio exceeds 30 (linear: 8,
+/// n log n: about 9, quadratic: 64) in three independent repetitions (each the minimum of 5 runs) and the larger call
+/// takes at least 40 ms - wide enough margins that machine load cannot produce a flag.  Listed findings are skipped.
+fn quick_ratio(e: &Exp) -> (String, bool) {
+    let id = format!("timing {} fam={}", e.row, e.fam);
+    let mut s = 2048usize;
+    let mut t1;
+    loop {
+        let mut call = (e.make)(s);
+        t1 = time_ms(&mut *call);
+        if t1 > 2_000.0 {
+            return (format!("{}: quick guard gave up (a single call of {} bytes took {:.0} ms)", id, s, t1), false);
+        }
+        if t1 >= 3.0 || s >= (4 << 20) {
+            break;
+        }
+        s *= 4;
+    }
+    let best = |size: usize| -> f64 {
+        let mut call = (e.make)(size);
+        let mut b = f64::MAX;
+        for _ in 0..5 {
+            let t = time_ms(&mut *call);
+            b = b.min(t);
+            if t > 4_000.0 {
+                break;
+            }
+        }
+        b
+    };
+    let mut ratios = vec![];
+    let mut big = 0.0;
+    for _ in 0..3 {
+        let a = best(s).max(0.001);
+        let b = best(8 * s);
+        big = b;
+        ratios.push(b / a);
+        if b / a <= 30.0 || b < 40.0 {
+            break;
+        }
+    }
+    let flagged = ratios.len() == 3 && ratios.iter().all(|r| *r > 30.0) && big >= 40.0;
+    (format!("{}: quick guard s={} 8s-ratios=[{}] {}", id, s, ratios.iter().map(|r| format!("{:.1}", r)).collect::<Vec<_>>().join(", "), if flagged { "FLAG" } else { "ok" }), flagged)
+}
+fn run_quick_timing_into(rep: &mut Report) {
+    let trace = std::env::var("C04_TRACE").is_ok();
+    let mut n = 0;
+    for e in timing_experiments() {
+        if e.listed.is_some() {
+            continue;
+        }
+        let (line, flagged) = quick_ratio(&e);
+        if trace {
+            eprintln!("c04: {}", line);
+        }
+        n += 1;
+        rep.evaluations += 1;
+        if flagged {
+            rep.failures.push((format!("timing {} fam={}", e.row, e.fam), format!("super-linear: an 8x larger input costs more than 30x in three repetitions ({})", line)));
+        }
+    }
+    rep.notes.push(format!("quick timing guard: {} unlisted experiments, one 8x step each, flag threshold 30x in three repetitions and >= 40 ms", n));
 }
 /// `fail`: a flagged pair that is not a listed timing finding becomes a failure (search mode)
 fn run_timing_into(rep: &mut Report, fail: bool) {
